@@ -734,6 +734,7 @@ class ComboGridFactorModel(BayesianModel, VIModel):
             max_steps=self.max_steps,
             shuffle=True,
             combo_smooth=True,
+            rng=getattr(self, "rng_", None),
         )
 
         pbar = tqdm(batch_iterator, total=len(batch_iterator))
@@ -747,6 +748,16 @@ class ComboGridFactorModel(BayesianModel, VIModel):
         return losses
 
     def sample(self, num_samples: int) -> list[GridComboSample]:
+        rng = getattr(self, "rng_", None)
+        if rng is None:
+            return self._sample(num_samples)
+        # pyro and torch draw from torch's global generator: seed it from the
+        # generator this model was given, and give it back afterwards
+        with torch.random.fork_rng(devices=[]):
+            torch.manual_seed(int(rng.integers(2**63 - 1)))
+            return self._sample(num_samples)
+
+    def _sample(self, num_samples: int) -> list[GridComboSample]:
         losses = self.fit()
 
         predictive = Predictive(
